@@ -67,6 +67,8 @@ pub enum WriteMode {
     Whole,
     Cap(usize),
     Random,
+    /// whole buffer most of the time, a random part now and then (a send buffer filling up)
+    Bursty,
 }
 
 #[derive(Clone, Debug)]
@@ -83,6 +85,8 @@ pub struct NetCfg {
     /// write error once this many bytes were accepted in total
     pub write_fail_at: Option<usize>,
     pub write_fail_kind: ErrorKind,
+    /// the write error fires once, then the stream works again
+    pub write_fail_transient: bool,
     /// orderly EOF once this many bytes were delivered in total
     pub read_eof_at: Option<usize>,
     /// connection reset once this many bytes were delivered in total
@@ -102,6 +106,7 @@ impl NetCfg {
             eintr_write: 0,
             write_fail_at: None,
             write_fail_kind: ErrorKind::BrokenPipe,
+            write_fail_transient: false,
             read_eof_at: None,
             read_rst_at: None,
             eager: 0,
@@ -277,6 +282,10 @@ impl Write for ClientEnd {
             if let Some(at) = cfg.write_fail_at {
                 if total >= at {
                     ctx.fault("write_error");
+                    if cfg.write_fail_transient {
+                        self.cfg.borrow_mut().write_fail_at = None;
+                        ctx.fault("write_error_transient");
+                    }
                     ctx.ev("net", format!("write: injected {:?} at {}", cfg.write_fail_kind, total));
                     return Err(io::Error::new(cfg.write_fail_kind, "sim: injected write error"));
                 }
@@ -294,14 +303,18 @@ impl Write for ClientEnd {
                 ctx.shape_op(5, 0);
                 return Ok(0);
             }
-            let mut m = match &cfg.write_mode {
+            let m = match &cfg.write_mode {
                 WriteMode::Whole => buf.len(),
                 WriteMode::Cap(k) => buf.len().min((*k).max(1)),
                 WriteMode::Random => {
                     let v = ctx.net_choose("wr", buf.len() as u64) as usize;
                     if v == 0 { buf.len() } else { v }
                 }
+                WriteMode::Bursty => {
+                    if ctx.net_chance("wr_burst_short", 1, 3) { 1 + ctx.net_choose("wr", buf.len() as u64) as usize } else { buf.len() }
+                }
             };
+            let mut m = m.min(buf.len());
             if let Some(at) = cfg.write_fail_at {
                 if total + m > at {
                     m = at - total;
